@@ -76,3 +76,82 @@ for nm in ("1201_0", "1201_0d", "1201_1", "1201_1d", "2400_0", "2400_0d", "2400_
       claim="genuine slice: completes only when all slices are in, output length == |M| and output byte == M byte at every offset (witness); duplicates change nothing",
       bound="message length %s, slice index %s (concrete per instance; suffix d = last slice already received); content, other received flags, witness offset symbolic" % tuple(nm.split("_")), **SC)
 L("sc_init", props=["C03"], functions="SliceConstructor::new", claim="fresh constructor satisfies its invariant", bound="3 slices", **SC)
+
+# --------------------------------------------------------------------------------------------
+# renet: reliable channel, receive side (C01, C02, C06, C09)
+RR = dict(crate="renet", file="channel/reliable.rs")
+V2 = {"bytes": "len", "cap": 2, "qcap": 2}
+V3 = {"bytes": "len", "cap": 3, "qcap": 3}
+V2S = {"bytes": "len", "cap": 2, "qcap": 2, "slice_size": 8}
+for nm, props, v, tier in (
+        ("rr_msg_ord_m0", ["C01", "C06", "C09"], V2, "quick"), ("rr_msg_ord_m1", ["C01", "C06", "C09"], V2, "quick"),
+        ("rr_msg_ord_m1c", ["C01", "C09"], V2, "thorough"), ("rr_msg_ord_m2", ["C01", "C09"], V3, "thorough"),
+        ("rr_msg_unord_m0", ["C02", "C06", "C09"], V2, "quick"), ("rr_msg_unord_m1", ["C02", "C06", "C09"], V2, "quick"),
+        ("rr_msg_unord_m1c", ["C02", "C09"], V2, "thorough"), ("rr_msg_unord_m2", ["C02", "C09"], V3, "thorough")):
+    L(nm, props=props, variant=v, tier=tier, functions="ReceiveChannelReliable::process_message",
+      claim="one arrival from an arbitrary state: buffered exactly once with its own content unless duplicate/old (then nothing changes) or over budget (error, nothing changes); "
+            "cursor unchanged; accounting == recomputed sum <= max; Inv_LF kept",
+      bound="occupancy fixed per instance (%s); ids < 2^62, lengths <= 4000, max <= 2^40, all symbolic" % nm.split("_")[-1], **RR)
+for nm, props, v, tier in (
+        ("rr_recv_ord_m1", ["C01", "C09"], V2, "quick"), ("rr_recv_ord_m2", ["C01", "C09"], V2, "quick"), ("rr_recv_ord_m1c", ["C01", "C09"], V2, "thorough"),
+        ("rr_recv_unord_m0", ["C02"], V2, "thorough"), ("rr_recv_unord_m1", ["C02", "C09"], V2, "quick"), ("rr_recv_unord_m1s2", ["C02", "C09"], V2, "quick"),
+        ("rr_recv_unord_m2", ["C02", "C09"], V2, "quick"), ("rr_recv_unord_m1c", ["C02", "C09"], V2, "thorough")):
+    L(nm, props=props, variant=v, tier=tier, functions="ReceiveChannelReliable::receive_message",
+      claim=("ordered: delivers exactly the message buffered for the cursor id, cursor+1, else None and nothing changes" if "_ord_" in nm else
+             "unordered: delivers the smallest buffered id without waiting, the id stays seen, seen() is monotone, cursor skips only seen ids") +
+            "; accounting and Inv_LF kept; other buffered messages untouched (witness id)",
+      bound="occupancy fixed per instance (%s); ids, lengths, cursor symbolic" % nm.split("_")[-1], **RR)
+for nm, props, tier in (
+        ("rr_slice_ord_i0", ["C01", "C06", "C09"], "thorough"), ("rr_slice_ord_i0_done", ["C01", "C03", "C06", "C09"], "quick"),
+        ("rr_slice_ord_i1", ["C01", "C03", "C06", "C09"], "quick"), ("rr_slice_ord_i1_full", ["C06", "C09"], "thorough"),
+        ("rr_slice_ord_i1_dup", ["C01", "C06", "C09"], "thorough"), ("rr_slice_ord_oob", ["C06"], "quick"),
+        ("rr_slice_unord_i0_done", ["C02", "C03", "C06", "C09"], "quick"), ("rr_slice_unord_i1", ["C02", "C06", "C09"], "thorough"),
+        ("rr_slice_unord_oob", ["C06"], "thorough"),
+        ("rr_slice_ord_other", ["C01", "C06", "C09"], "quick"), ("rr_slice_unord_other", ["C02", "C06", "C09"], "quick"),
+        ("rr_slice_unord_other_s2", ["C02", "C09"], "thorough")):
+    L(nm, props=props, variant=V2S, tier=tier, timeout=600, mem_gb=16,
+      functions="ReceiveChannelReliable::process_slice, SliceConstructor::process_slice, ReceiveChannelReliable::process_message",
+      claim="ANY V-valid slice on a state with one buffered message and one live 2-slice constructor: returns; a slice of an assembled/consumed message changes nothing; "
+            "a genuine slice buffers or completes with exact accounting; a slice whose num_slices contradicts the constructor cannot wrap the accounting; "
+            "accounting == recomputed sum <= max; Inv_LF kept",
+      bound="1 buffered message, 1 live constructor (2 slices); instance fixes: order mode, payload length, last-slice-present flag, index class (0 / 1 / any >= 2), "
+            "same-id (num_slices arbitrary 1..10^6) or other-id (num_slices 2); SLICE_SIZE literal rewritten 1200 -> 8 in the staged copy (channel code is parametric in it)", **RR)
+L("rr_init", props=["C01", "C02", "C09"], variant=V2, functions="ReceiveChannelReliable::new", claim="fresh channel: empty, cursor 0, invariants hold", bound="none", **RR)
+L("rr_witness", props=["C01", "C02", "C09", "C06"], variant=V2, expect="fail", functions="-", claim="vacuity witness", **RR)
+
+# renet: reliable channel, send side (C01-C03, C08, C09, C13, C14, C15)
+for nm in ("rs_send_n0", "rs_send_n1"):
+    L(nm, props=["C01", "C02", "C03", "C09"], variant=V2, functions="SendChannelReliable::{send_message, can_send_message, available_memory}, UnackedMessage::new_sliced",
+      claim="send refuses iff mem+len > max (nothing changes) else assigns the next id exactly once, mem += len, stores Small iff len <= 1200 else Sliced with ceil(len/1200) slices",
+      bound="%s queued messages; len <= 4000, ids < 2^62, max <= 2^40 symbolic" % nm[-1], **RR)
+for nm, tier in (("rs_gps_small_n1", "quick"), ("rs_gps_small_n2", "quick")):
+    L(nm, props=["C14", "C15", "C08"], variant=V2, tier=tier, timeout=600,
+      functions="SendChannelReliable::get_packets_to_send (small messages)",
+      claim="budget deducted == bytes of the messages emitted, threaded in id order; a message is emitted iff due (never sent or now-last >= resend) and avail >= len; "
+            "timer refreshed iff emitted, untouched otherwise; nothing released; sequence advances once per packet; no packet when nothing is due/affordable",
+      bound="%s queued small messages (occupancy fixed), lengths 0..=1200, ids/sequence < 2^62, whole-second clock/resend, budget symbolic" % nm[-1], **RR)
+for nm, tier in (("rs_pack_small_n1", "thorough"), ("rs_pack_small_n2", "thorough")):
+    L(nm, props=["C03", "C13"], variant=V2, tier=tier, timeout=1500, mem_gb=20, heavy=True,
+      functions="SendChannelReliable::get_packets_to_send (packing of small messages)",
+      claim="every queued message is listed exactly once, in order, with its own id and bytes; packets carry consecutive sequences; every packet serializes to <= 1300 B across all varint width classes",
+      bound="%s queued small messages, timers None and budget unlimited (concrete), ids/lengths/sequence symbolic; packets read back at concrete indices" % nm[-1], **RR)
+for nm, tier in (("rs_gps_sliced_n2", "quick"), ("rs_gps_sliced_n3", "quick")):
+    L(nm, props=["C14", "C15"], variant=V2, tier=tier, timeout=600,
+      functions="SendChannelReliable::get_packets_to_send (sliced message)",
+      claim="slice i is emitted iff unacked, due and >= 1200 bytes of budget remain at its turn (round robin from next_slice_to_send); budget deducted == payload bytes; "
+            "acked slices never re-emitted; timers refreshed iff emitted; one packet per emitted slice",
+      bound="one sliced message of %s slices, length symbolic in its class; ack flags, timers, start index, budget, clock symbolic" % nm[-1], **RR)
+for nm, tier in (("rs_pack_sliced_n2", "thorough"), ("rs_pack_sliced_n3", "thorough")):
+    L(nm, props=["C03", "C13"], variant=V2, tier=tier, timeout=1500, mem_gb=20, heavy=True,
+      functions="SendChannelReliable::get_packets_to_send (slicing plan on the wire)",
+      claim="a fresh sliced message yields exactly num_slices packets, slice i = bytes [1200 i, min(1200(i+1), len)) with num_slices = ceil(len/1200), each index once, each packet <= 1300 B",
+      bound="one sliced message of %s slices, nothing acked, timers None, budget unlimited (concrete); id, length, sequence symbolic" % nm[-1], **RR)
+L("rs_ack_small", props=["C08", "C09", "C15"], variant=V2, functions="SendChannelReliable::process_message_ack",
+  claim="ack(id) releases exactly that message and returns its bytes once; unknown/duplicate ack changes nothing (so it is never emitted again: rs_gps_* only visit queued entries)",
+  bound="2 queued small messages, ids/lengths symbolic", **RR)
+for nm, tier in (("rs_ack_slice_n2", "quick"), ("rs_ack_slice_n3", "thorough")):
+    L(nm, props=["C08", "C09", "C15"], variant=V2, tier=tier, functions="SendChannelReliable::process_slice_message_ack",
+      claim="a sliced message is released (bytes returned once) exactly when every slice index has been acknowledged; duplicate/foreign acks change nothing",
+      bound="one sliced message of %s slices, ack flags symbolic, slice index < num_slices (Inv_SP)" % nm[-1], **RR)
+L("rs_init", props=["C09", "C14"], variant=V2, functions="SendChannelReliable::new", claim="fresh channel empty; get_packets_to_send on empty returns nothing and leaves budget/sequence", bound="none", **RR)
+L("rs_witness", props=["C03", "C08", "C13", "C14", "C15"], variant=V2, expect="fail", functions="-", claim="vacuity witness", **RR)
